@@ -50,27 +50,20 @@ def DocType.bytes (d : DocType) (name : Str) : Str :=
         | .sys s => doctypeSystemOpen ++ s ++ doctypeSystemClose)
     ++ doctypeClose
 
-/-- The loop of `prefix_for_namespace` over the declarations of the ancestor chain followed by
-    `base_prefixes()`: a prefix seen before ends the search (`return None`). -/
-def doctypePrefixGo (ns : Nat) : List Nat → List (Nat × Nat) → Option Nat
-  | _, [] => none
-  | seen, (p, n) :: rest =>
-    if seen.contains p then none
-    else if n == ns then some p
-    else doctypePrefixGo ns (p :: seen) rest
-
-/-- `xot.prefix_for_namespace(node, ns)` for the node with ancestor-or-self chain `chain`. -/
-def doctypePrefixForNamespace (chain : List Tree) (ns : Nat) : Option Nat :=
-  doctypePrefixGo ns [] (chain.flatMap Tree.nsDecls ++ basePrefixes)
-
 /-- `document_element(node)` on a document node: raw index of the first element among the
     normal children. -/
 def firstElementIdx (t : Tree) : Option Nat :=
   let skipped := t.kids.length - t.normalKids.length
   (t.normalKids.findIdx? (fun k => k.value.isElement)).map (skipped + ·)
 
-/-- The `if let Some(doctype)` block: the element whose name is written, then
-    `node_name_ref(node)?.unwrap().full_name()`. -/
+/-- The stack the doctype writer builds for the element at `path`:
+    `FullnameSerializer::new(namespaces_in_scope(node))` then `push(namespace_declarations(node))`. -/
+def doctypeStack (t : Tree) (path : Path) (el : Tree) : FStack :=
+  (FStack.new ((namespacesInScope t path).getD [])).push el.nsDecls
+
+/-- The `if let Some(doctype)` block: the element whose name is written (document element of a
+    document, the node itself if it is an element, else `NotElement`), then its full name spelled
+    as the serialiser will spell it (`element_fullname`, which may fail with `MissingPrefix`). -/
 def doctypeName (env : Env) (t : Tree) (start : Path) : Outcome XotError Str :=
   match t.at? start with
   | none => .panic
@@ -87,24 +80,15 @@ def doctypeName (env : Env) (t : Tree) (start : Path) : Outcome XotError Str :=
     | .err e => .err e
     | .panic => .panic
     | .ok path =>
-      match t.at? path, t.ancestorsOrSelf path with
-      | some el, some chain =>
+      match t.at? path with
+      | some el =>
         (match el.value with
          | .element name =>
-           let ns := env.nsOfName name
-           if ns != Env.noNamespace then
-             match doctypePrefixForNamespace chain ns with
-             | some p =>
-               -- `full_name`: `if !prefix.is_empty()`
-               .ok (if !(env.prefixStr p).isEmpty then env.prefixStr p ++ [':'] ++ env.localName name
-                    else env.localName name)
-             | none => .err (.missingPrefix ns)
-           else
-             .ok (if !(env.prefixStr Env.emptyPrefix).isEmpty
-                  then env.prefixStr Env.emptyPrefix ++ [':'] ++ env.localName name
-                  else env.localName name)
-         | _ => .panic)
-      | _, _ => .panic
+           (match (doctypeStack t path el).elementFullname env name with
+            | .ok full => .ok full
+            | .error e => .err e)
+         | _ => .panic)   -- `get_element_name`: "Node is not an element"
+      | none => .panic
 
 /-- `serialize_xml_write_with_normalizer`: bytes written and how the call ended. -/
 def serializeXmlWriteWith (esc : Escapers) (env : Env) (p : XmlParams) (t : Tree) (start : Path) :
